@@ -70,12 +70,12 @@ def run(ctx, prop="C08"):
     def do(job):
         sid, lines, sched, steps, relines, rescheds = job
         tr, get, cmdmap = pipeline.run_session(ctx, fzf, sid, lines, sched, steps, race_log=race, reload_scheds=rescheds)
-        evs, keys, info = pipeline.project(tr, get, sid, cmdmap)
+        evs, keys, cfgs = pipeline.project(tr, get, sid, cmdmap)
         table = {}
-        for (q, n, srt, rev) in keys:
-            inp, excluded, nth = info.get(rev, (-1, [], ""))
+        for (q, n, srt, ci) in keys:
+            inp, excluded, nth = cfgs[ci] if ci < len(cfgs) else (-1, (), "")
             src = lines if inp == -1 else relines[inp]
-            table[pipeline.okey(sid, q, n, srt, rev)] = pipeline.oracle(fzf_oracle, src, q, n, srt, excluded=excluded, nth=nth)
+            table[pipeline.okey(sid, q, n, srt, ci)] = pipeline.oracle(fzf_oracle, src, q, n, srt, excluded=excluded, nth=nth)
         return sid, evs, table
     results = {}
     with ThreadPoolExecutor(max_workers=6) as ex:
